@@ -17,6 +17,16 @@ C("C11", "proof",
   "Trusted: Coq kernel, extraction, driver, harness (abstraction of a token to carriage-return / comment / other + value; mapping of a violation to its token positions). Modelled rather than verified: code_tags.py, set_code_tags, has_code_tag. Rules enter through their observed violations only.",
   "Coq proof (unbounded) of the tag state machine + extracted-model differential + metamorphic report filter", "5/C11")
 
+C("C13", "proof",
+  "check_rules (per-sub-phase loop, cumulative failure counter, sticky flag, break) and the call sequence of rule_list.fix (phase range, skip list, sub-phases, disabled filter, prerequisite ordering, severity test, indent / normalisation calls) are modelled in Coq; proved for all rule tables, phase assignments, skip sets and violation counts: the gated run analyses exactly the all-phases run's rules of phases <= the stop phase (gated_is_prefix), the same for the reported violations (gated_report_is_prefix), the flag is set iff an error-type violation was counted, skipped phases / disabled rules / phases outside 1..7 are never analysed, and Rule.fix is only called for enabled error-typed rules of non-skipped phases 1..fix_phase. The extracted scheduler is tied to /repo by predicting, from the configured rule objects, the exact sequence of Rule.fix / Rule.analyze / set_token_indent / normalisation calls of real apply_rules runs (real argparse + config glue) under random phase re-assignments, disables, severities, skip_phase and --fix_phase, and the property is additionally evaluated on the real reports alone.",
+  "Trusted: Coq kernel, extraction, driver, observers (instance-level wrappers installed from outside /repo). Assumes analyses are read-only (C06) when the -ap run's violation counts predict the gated run. Modelled rather than verified: rule_list.py scheduling code.",
+  "Coq proof (unbounded) of the scheduler + extracted-model prediction of observed call sequences", "5/C13")
+
+C("C20", "proof",
+  "Rule._filter_out_fix_only_violations (including its exception-driven paths) and Rule.fix's fixable guard are modelled in Coq; filter_spec, fix_only_all_is_fix, fix_only_empty_is_identity and fixed_only_selected are proved for all dictionaries and violation lists. The extracted filter is compared with the real method on random dictionaries (missing keys, 'all', duplicates, unfixable rules), and the three CLI clauses are run on corpus files: every rule with 'all' = plain --fix, an empty selection leaves bytes and inode untouched, a case / whitespace rule listed for half of its reported lines changes exactly / at most those lines.",
+  "Trusted: Coq kernel, extraction, driver, harness. Modelled rather than verified: rule.py filter. 'line-local rule' is read as case / whitespace group rules.",
+  "Coq proof (unbounded) of the filter + extracted-model differential + CLI metamorphic runs", "5/C20")
+
 NA_REASON = "check not built yet in this round (see DESIGN.md section 10 build order); nothing is claimed for it"
 ALL = ["C%02d" % i for i in range(1, 21)]
 m = dict(version=1, setup_cmd="./bin/setup",
